@@ -387,6 +387,14 @@ class TypeState:
                     if not nv:
                         return None
                     st[k] = nv
+            if a[0] == "variant" and a[1][0] == "field" and a[1][2] == "status" and a[2] and all(n in STATUSES for n in a[2]):
+                # `match order.status { Status::Filled => .., _ => .. }`
+                k = self.canon_key(st, a[1][1])
+                cur = self.get(q, st, k, mode)
+                nv = frozenset(t for t in cur if t[0] in a[2])
+                if not nv:
+                    return None
+                st[k] = nv
             if a[0] == "variant":
                 subj = a[1]
                 names = a[2]
@@ -811,12 +819,32 @@ class TypeState:
         return r
 
 
+def _elem(e):
+    """(container, index) when e denotes an element of an indexable container however it is spelled:
+    c[i] / *c.index(i) / *c.index_mut(i) / c.get(i).unwrap() / c.get_mut(i) matched as Some"""
+    if e[0] == "index" and len(e) >= 3:
+        return (e[1], e[2])
+    if e[0] == "call" and e[4] in ("index", "index_mut") and len(e[2]) == 2:
+        return (e[2][0], e[2][1])
+    if e[0] == "field" and e[2] == "0" and e[1][0] == "downcast" and e[1][2] == "Some":
+        c = e[1][1]
+        if c[0] == "call" and c[4] in ("get", "get_mut") and len(c[2]) == 2:
+            return (c[2][0], c[2][1])
+    if e[0] == "call" and e[4] in ("unwrap", "expect", "unwrap_unchecked") and e[2] and e[2][0][0] == "call" and e[2][0][4] in ("get", "get_mut") and len(e[2][0][2]) == 2:
+        return (e[2][0][2][0], e[2][0][2][1])
+    return None
+
+
 def same(a, b):
-    """structural equality ignoring the owner annotation of field nodes"""
+    """structural equality ignoring the owner annotation of field nodes and the spelling of container element access"""
     if a == b:
         return True
     if not isinstance(a, tuple) or not isinstance(b, tuple):
         return a == b
+    if a and b and isinstance(a[0], str) and isinstance(b[0], str) and a[0] in ("index", "call", "field") and b[0] in ("index", "call", "field"):
+        ea, eb = _elem(a), _elem(b)
+        if ea is not None and eb is not None:
+            return same(ea[0], eb[0]) and same(ea[1], eb[1])
     if a and b and a[0] == "field" and b[0] == "field":
         return a[2] == b[2] and same(a[1], b[1])
     if len(a) != len(b):
